@@ -85,7 +85,15 @@ CLASSES = [('E', 0, 1, 2, None, 1, 0), ('L', 1, 1, 3, None, 2, 0), ('U', 0, 0, 2
            ('RC', 0, 1, 2, ('c', 0), None, 0), ('SK', 0, 1, 2, None, None, 1), ('SL', 1, 1, 2, None, 1, 1),
            # two FAMILIES of like-named classes ('Own', 'Pet') in two class registries, with the id types crossed:
            # Own: string ids / Pet: int ids, key to Own   |   Own: int ids / Pet: string ids, lazy, key to Own
-           ('OA', 0, 1, 1, None, None, 1), ('PA', 0, 1, 2, None, None, 0), ('OB', 0, 1, 1, None, None, 0), ('PB', 1, 1, 2, None, None, 1)]
+           ('OA', 0, 1, 1, None, None, 1), ('PA', 0, 1, 2, None, None, 0), ('OB', 0, 1, 1, None, None, 0), ('PB', 1, 1, 2, None, None, 1),
+           # plain Python subclasses overriding sqlmeta options (the values here are the CHILD's, see SUBCLS):
+           # caching child of a non-caching parent | lazy child of an eager parent | eager child of a lazy parent
+           ('CC', 0, 1, 2, None, None, 0), ('CL', 1, 1, 2, None, None, 0), ('CE', 0, 1, 2, None, None, 0)]
+# child class -> sqlmeta options of the parent (which declares column x; the child adds y)
+SUBCLS = {14: {'cacheValues': False}, 15: {'lazyUpdate': False}, 16: {'lazyUpdate': True}}
+# (class, column) whose getter is the parent's NON-caching one (`_SO_getValue`: one single-column SELECT per read; the
+# model keeps one read mode per class, so these reads are checked against the raw row and their statement directly)
+GETVALUE = {(14, 0)}
 PLAIN = ['x', 'y', 'z']
 # plain (cascade=None) foreign keys: class -> referenced class;  FKT: every class whose column 0 is a key
 PLAINFK = {11: 10, 13: 12}
@@ -211,7 +219,13 @@ def env(do_cache):
                 col = {'int': IntCol, 'json': JSONCol, 'str': StringCol}[kd]
                 attrs[DBN[kk][ci]] = col(default=None)
         attrs['__module__'] = __name__
-        cls = type(name, (SQLObject,), attrs)
+        base = SQLObject
+        if kk in SUBCLS:
+            palias = sqlo.uniq('C05%sparent%d_' % (nm, int(do_cache)))
+            base = type(palias, (SQLObject,), {'_connection': conn, 'x': attrs.pop('x'), '__module__': __name__,
+                                               'sqlmeta': type('sqlmeta', (), dict(SUBCLS[kk], table='t_%s_parent' % nm.lower()))})
+            globals()[palias] = base
+        cls = type(name, (base,), attrs)
         cls.__qualname__ = alias
         globals()[alias] = cls      # picklable by reference (like-named classes get distinct qualified names)
         cls.createTable()
@@ -823,6 +837,13 @@ class Runner(object):
         if hd is None or c >= CLASSES[hd.k][3]:
             return False
         out, val, stmts = self.outcome(lambda: getattr(hd.obj, ATTRS[hd.k][c]))
+        if (hd.k, c) in GETVALUE:
+            want = [] if hd.obj.sqlmeta._obsolete else ['Sc %d %d %d' % (hd.k, hd.rid, c)]
+            self.direct.append(('inherited non-caching getter: one single-column SELECT per read', ';'.join(want), ';'.join(self.canon(stmts))))
+            if hd.destroyed and out == 'Assert':
+                return
+            self.check_read(h, hd, c, out, val, where)
+            return
         txt = ('val ' + sv_py(hd.k, c, val)) if out == 'ok' else out
         self.emit('read %d %d' % (h, c), txt, self.canon(stmts), 'attribute read (value, statements): model = main.py')
         self.check_read(h, hd, c, out, val, where)
@@ -859,6 +880,8 @@ class Runner(object):
         hd = self.need(h)
         if hd is None or any(c >= CLASSES[hd.k][3] for c, _ in kvs):
             return False
+        if hd.k in SUBCLS and len(kvs) > 1 and any(c == 0 for c, _ in kvs):
+            return False     # see probe_subclass_set in harness/c16.py
         if self.prefetched(hd.k, hd.rid):
             return False
         before = self.rawrow(hd.k, hd.rid)
@@ -1355,6 +1378,10 @@ def gen_op(rng, r, weights):
         if name == 'set':
             cols = [c for c in range(n) if rng.random() < 0.6]
             rng.shuffle(cols)
+            if kk in SUBCLS and len(cols) > 1:
+                # (finding C16:subclass-set-splits-inherited-column: a multi-column set() of a plain subclass writes the
+                #  INHERITED column separately; the generator sets it alone or not at all)
+                cols = [rng.choice(cols)]
             return ['set', h, [[c, gen_val(rng, 0.06, kk, c)] for c in cols], fail]
         if name in ('syncupdate', 'sync', 'pickle'):
             return [name, h, fail]
@@ -1367,7 +1394,7 @@ OPS_C05 = (['create'] * 10 + ['get'] * 7 + ['select'] * 6 + ['read'] * 8 + ['set
            ['syncupdate'] * 4 + ['sync'] * 7 + ['expire'] * 8 + ['expireall'] * 2 + ['expireallcls'] * 1 +
            ['destroy'] * 4 + ['pickle'] * 2 + ['drop'] * 1 + ['oobupdate'] * 4 + ['oobdelete'] * 2 + ['oobinsert'] * 1 +
            ['deleteby'] * 1 + ['deletemany'] * 2 + ['unpickle'] * 2 + ['iter'] * 3 + ['next'] * 9 + ['readfk'] * 4)
-W_C05 = {'ops': OPS_C05, 'classes': [0, 0, 0, 0, 1, 1, 2, 2, 3, 4, 4, 5, 5, 6, 7, 7, 8, 8, 9, 10, 11, 11, 12, 13, 13]}
+W_C05 = {'ops': OPS_C05, 'classes': [0, 0, 0, 0, 1, 1, 2, 2, 3, 4, 4, 5, 5, 6, 7, 7, 8, 8, 9, 10, 11, 11, 12, 13, 13, 14, 14, 15, 15, 16]}
 
 
 def interesting(ops):
@@ -1440,6 +1467,13 @@ def shrink(do_cache, mode, ops, kind, prop):
 
 def fail_key(prop, kind, clsname, ops):
     return '%s:%s:%s:%s' % (prop, kind, clsname, ','.join(o[0] for o in ops))
+
+
+def finding_listed(key):
+    try:
+        return any(f.get('key') == key for f in json.load(open(os.path.join(HERE, 'known_findings.json')))['findings'])
+    except Exception:
+        return False
 
 
 def load_corpus(prop):
@@ -1597,17 +1631,54 @@ def probe_lookahead(ctx):
         ctx.oracle_fail('C05:stale-read:lazyIter-lookahead-row', what, {'probe': 'lookahead', 'cache': True, 'mode': 'B', 'ops': []})
 
 
+def probe_subclass_cachevalues(ctx):
+    """known finding (open): a plain subclass with cacheValues=False under a caching parent keeps the parent's CACHING
+    getter of the inherited column, while its setter does not cache: b = B(x=1, y=2); b.x = 5; b.x -> 1."""
+    sqlo.setup()
+    from sqlobject import SQLObject, IntCol
+    conn = sqlo.mem_conn()
+    A = type(sqlo.uniq('C05SubA'), (SQLObject,), {'_connection': conn, 'x': IntCol(default=None),
+                                                  'sqlmeta': type('sqlmeta', (), {'table': 't_sub_a'})})
+    B = type(sqlo.uniq('C05SubB'), (A,), {'y': IntCol(default=None),
+                                          'sqlmeta': type('sqlmeta', (), {'table': 't_sub_b', 'cacheValues': False})})
+    B.createTable()
+    what = None
+    try:
+        b = B(x=1, y=2)
+        b.x = 5
+        b.y = 6
+        shown = (b.x, b.y)
+        cur = conn._memoryConn.cursor()
+        cur.execute('SELECT x, y FROM t_sub_b WHERE id = %d' % b.id)
+        stored = tuple(cur.fetchone())
+        cur.close()
+        if shown != stored:
+            what = ('class B(A) with sqlmeta.cacheValues = False under a caching A: b = B(x=1, y=2); b.x = 5; b.y = 6: '
+                    '(b.x, b.y) shows %r, the row holds %r' % (shown, stored))
+    except Exception as ex:
+        what = 'subclass witness raised %s' % sqlo.exc_name(ex)
+    ctx.case(('probe', 'subclass-cachevalues'), sample={'probe': 'cacheValues=False subclass of a caching class', 'failed': bool(what)},
+             kind='directed probe')
+    if what:
+        ctx.oracle_fail('C05:subclass-cacheValues-false-inherits-caching-getter', what,
+                        {'probe': 'subclass_cachevalues', 'cache': True, 'mode': 'B', 'ops': []})
+
+
+PROBES = {'like_named': probe_like_named, 'lookahead': probe_lookahead, 'subclass_cachevalues': probe_subclass_cachevalues}
+
+
 def run(ctx):
     env(True)
     env(False)
     probe_like_named(ctx)
     probe_lookahead(ctx)
+    probe_subclass_cachevalues(ctx)
     n = ctx.budget(2500, 15000)
     drive(ctx, 'C05', W_C05, n, 30 if ctx.tier == 'quick' and not ctx.deep else 60)
 
 
 def replay(case):
-    if case.get('probe') in ('like_named', 'lookahead'):
+    if case.get('probe') in PROBES:
         class _C(object):
             fails = []
 
@@ -1617,7 +1688,7 @@ def replay(case):
             def oracle_fail(self, key, what, case):
                 self.fails.append(what)
         c = _C()
-        (probe_like_named if case['probe'] == 'like_named' else probe_lookahead)(c)
+        PROBES[case['probe']](c)
         return (not c.fails), '\n'.join(c.fails) or 'the witness no longer reproduces'
     r = run_history(case['cache'], case['mode'], [list(o) for o in case['ops']], 'C05')
     bad = [f for f in r.fails if f[0] == case.get('kind', f[0])]
